@@ -58,13 +58,14 @@ var ctChoices = []ctChoice{
 }
 
 func checkC11(e *core.Env) {
+	curEnv = e
 	e.SetRule("generated HTTP requests: method {POST,GET,PUT,HEAD,OPTIONS,DELETE,PATCH,post,empty} x path {each registered method kind, unknown, near-miss, base-path variants} x 25 Content-Type strings (exact, parameters, case, cross-kind, unknown, empty, malformed) x header sets (valid metadata, invalid base64 in -bin headers, bad GRPC-Timeout) x bodies (valid proto / JSON, garbage, truncated or hostile frames) through httpgrpc.Server.ServeHTTP and HandleServices on a recorder; oracle: reference decision procedure for the set of admissible rejections, handler invocation counter, reply shape parser (unary body decodes, stream reply = frames* + exactly one trailer frame), JSON/protobuf equivalence; distinct = (method class, path class, content-type, header class, body class)")
 	e.Assume("malformed Content-Type strings may be accepted or rejected (either way without a panic); bad GRPC-Timeout values must only not crash")
 	svc := &Service{}
 	srv := httpgrpc.NewServer(httpgrpc.WithBasePath("/base/"))
 	srv.RegisterService(&ScriptedDesc, svc)
 	methods := []string{"POST", "POST", "POST", "POST", "GET", "PUT", "HEAD", "OPTIONS", "DELETE", "PATCH", "post", "Post"}
-	n := e.N(4000, 40000)
+	n := e.N(12000, 400000)
 	e.Cases("request", n, func(i int, r *rand.Rand) {
 		kind := Kind(r.Intn(4))
 		method := methods[r.Intn(len(methods))]
@@ -359,7 +360,7 @@ func checkC11(e *core.Env) {
 	})
 
 	// JSON and protobuf encodings of the same unary request are handled identically (also through HandleServices)
-	e.Cases("json-equivalence", e.N(150, 1500), func(i int, r *rand.Rand) {
+	e.Cases("json-equivalence", e.N(500, 10000), func(i int, r *rand.Rand) {
 		req := genMsg(r, fmt.Sprintf("c11j-%d", i), false)
 		req.ProtoReflect().SetUnknown(nil)
 		req.ErrorDetails = nil
